@@ -101,7 +101,14 @@ VARIES = (
     "command, two PIN retries left, SIGTERM with clients queued, devices answering a query "
     "with another item's well-formed answer, special-looking outpoints, data of little variety "
     "(repeated bytes, identical areas, identical pages), targets and names of mixed JSON types, "
-    "hashes with tabs and newlines, output files written over longer stale ones")
+    "hashes with tabs and newlines, output files written over longer stale ones, input "
+    "sequence numbers, key id elements of thousands of digits, unknown opcodes whose bits "
+    "resemble a success opcode, midstates equal to SHA-256's initial state, certifier keys "
+    "sharing an x coordinate, chains of up to 17 certificates, extra keys under other spellings "
+    "of a path, heartbeats after which the device is locked in the bootloader (unsafe device, "
+    "PIN change pending), silences of a day inside an outage, managers that served thousands of "
+    "requests, devices off the bus for several attempts, -u together with a PIN, secrets in "
+    "environment variables (PIN, PASSWORD), directories named ~, last pushes over 520 bytes")
 
 IDEAS = (
     "a code path only reached through a rarely used command-line option, environment variable or "
